@@ -1,6 +1,7 @@
 //! C04: well-nested if/elseif/else/while/for-in programs (any spelling) against a tree-walking interpreter.
 use crate::rng::Rng;
 use duckscript::runner;
+use duckscript::types::command::{Command, CommandInvocationContext, CommandResult};
 use duckscript::types::runtime::Context;
 use serde_json::{json, Value};
 use std::collections::BTreeMap;
@@ -9,6 +10,24 @@ use std::collections::BTreeMap;
 // {"k":"mark","id":n} | {"k":"assign","var":"b1","val":true}
 // {"k":"if","conds":[C..],"bodies":[[..]..],"else":[..]|null,"sp":[spelling indexes]}   C = {"lit":bool}|{"var":"b1"}
 // {"k":"while","id":n,"twice":bool,"body":[..],"sp":[..]} | {"k":"for","id":n,"n":k,"body":[..],"sp":[..]}
+
+/// `probe <id> <value>`: a command used as a condition; it leaves a mark in the trace (so that a condition
+/// that must not be evaluated is noticed) and returns <value>
+#[derive(Clone)]
+pub struct Probe {}
+impl Command for Probe {
+    fn name(&self) -> String {
+        "probe".to_string()
+    }
+    fn clone_and_box(&self) -> Box<dyn Command> {
+        Box::new(self.clone())
+    }
+    fn run(&self, context: CommandInvocationContext) -> CommandResult {
+        let t = context.variables.get("trace").cloned().unwrap_or_default();
+        context.variables.insert("trace".to_string(), format!("{} p{}", t, context.arguments.get(0).cloned().unwrap_or_default()));
+        CommandResult::Continue(context.arguments.get(1).cloned())
+    }
+}
 
 pub fn gen_block(r: &mut Rng, depth: usize, counter: &mut usize, budget: &mut i32) -> Vec<Value> {
     gen_block_ret(r, depth, counter, budget, false)
@@ -35,7 +54,8 @@ pub fn gen_block_ret(r: &mut Rng, depth: usize, counter: &mut usize, budget: &mu
                 let mut conds = vec![];
                 let mut bodies = vec![];
                 for _ in 0..nc {
-                    conds.push(if r.chance(1, 2) { json!({"lit": r.chance(1, 2)}) } else { json!({"var": format!("b{}", r.below(3))}) });
+                    *counter += 1;
+                    conds.push(match r.below(3) { 0 => json!({"lit": r.chance(1, 2)}), 1 => json!({"var": format!("b{}", r.below(3))}), _ => json!({"probe": *counter, "val": r.chance(1, 2)}) });
                     bodies.push(Value::Array(gen_block_ret(r, depth + 1, counter, budget, allow_ret)));
                 }
                 let els = if r.chance(1, 2) { Value::Array(gen_block_ret(r, depth + 1, counter, budget, allow_ret)) } else { Value::Null };
@@ -66,6 +86,8 @@ const ENDFOR_SP: [&str; 3] = ["end", "end_for", "std::flowcontrol::EndForIn"];
 fn cond_text(c: &Value) -> String {
     if let Some(b) = c["lit"].as_bool() {
         b.to_string()
+    } else if let Some(id) = c["probe"].as_u64() {
+        format!("probe {} {}", id, c["val"])
     } else {
         format!("${{{}}}", c["var"].as_str().unwrap())
     }
@@ -130,9 +152,13 @@ fn truthy(v: Option<&String>) -> bool {
     }
 }
 
-fn eval_cond(c: &Value, vars: &BTreeMap<String, String>) -> bool {
+fn eval_cond(c: &Value, vars: &mut BTreeMap<String, String>) -> bool {
     if let Some(b) = c["lit"].as_bool() {
         b
+    } else if let Some(id) = c["probe"].as_u64() {
+        let t = vars.get("trace").cloned().unwrap_or_default();
+        vars.insert("trace".to_string(), format!("{} p{}", t, id));
+        c["val"].as_bool().unwrap_or(false)
     } else {
         truthy(vars.get(c["var"].as_str().unwrap()))
     }
@@ -227,6 +253,7 @@ pub fn run(input: &Value) -> Option<Value> {
     }
     let mut context = Context::new();
     duckscriptsdk::load(&mut context.commands).ok()?;
+    context.commands.set(Box::new(Probe {})).ok()?;
     match runner::run_script(&script, context, None) {
         Ok(ctx) => {
             let real: BTreeMap<String, String> = ctx.variables.iter().filter(|(k, _)| !k.starts_with('h')).map(|(k, v)| (k.clone(), v.clone())).collect();
